@@ -213,13 +213,34 @@ class Exec:
         self.reset()
         nontrivial = any(o[0] == "enter" for o in hist) and any(o[0].startswith("leave") for o in hist)
         self.ctx.case(hist, nontrivial, workload)
-        for i, op in enumerate(hist):
-            try:
-                if not self.step(op, hist, i):
+        import warnings  # noqa: PLC0415
+
+        # a third of the random histories run the way a test-suite with `filterwarnings = error` (or `python -W error`) runs them: a warning the
+        # library chooses to issue then surfaces as an exception, which is the caller's choice and not judged -- but a block that is left is left:
+        # the format in force at entry is back all the same ("normally or through an exception")
+        strict = workload in ("gen", "replay") and (sum(len(o) for o in hist) + len(hist)) % 3 == 0
+        with warnings.catch_warnings():
+            if strict:
+                warnings.simplefilter("error")
+                self.ctx.hit("history-run-with-warnings-as-errors")
+            for i, op in enumerate(hist):
+                try:
+                    if not self.step(op, hist, i):
+                        break
+                except Warning as e:
+                    if not strict:
+                        self.fail("history:raised:" + type(e).__name__, f"step {i} {op} raised {type(e).__name__}: {e}", hist, i)
+                        break
+                    self.ctx.hit("warning-surfaced-as-an-exception:not-judged")
+                    if op[0] in ("leave", "leave_exc"):
+                        got = (self.DF.config.get("decay_pattern"), self.DF.config.get("sub_decay_pattern"))
+                        if got != self.m.cur:
+                            self.fail("format:not-restored-when-a-warning-surfaced-while-leaving", f"step {i} {op} raised {type(e).__name__}: {e}; format afterwards {got!r}, "
+                                      f"format in force at entry {self.m.cur!r}", hist, i)
                     break
-            except Exception as e:  # noqa: BLE001
-                self.fail("history:raised:" + type(e).__name__, f"step {i} {op} raised {type(e).__name__}: {e}", hist, i)
-                break
+                except Exception as e:  # noqa: BLE001
+                    self.fail("history:raised:" + type(e).__name__, f"step {i} {op} raised {type(e).__name__}: {e}", hist, i)
+                    break
         for v in contracts.drain():
             self.ctx.violate(v["mechanism"], v["message"], {"kind": "history", "ops": hist})
         # unwind whatever is still entered, then restore the default
